@@ -91,26 +91,26 @@ CLAIMED = {
 # rules added after the seeded rounds (DESIGN.md §10); appended to the claim text
 BASE = " Foundation groups shared with other properties (each a necessary condition of this one, DESIGN.md §10a) are reported as %s-BASE-<GROUP>: "
 ADDED = {
- "C01": "Round 5: the rule text in force for an object is selected correctly (C01-BASE-RULESRC), exported fields are recognised exactly (C01-BASE-EXPORT), every entry point hands all its parameters on (C01-BASE-FACADE). Round 4: C01-EXACT, a measure from Int()/Uint()/Float() is never converted before the comparison to a type that cannot hold every value of its own (no int64/uint64 -> float64 detour: integers above 2^53 collapse). Also: a conversion of the measure must be value preserving (float->int, uint64->int64 rejected); C01-ENTRY: the value measured is the caller's through every entry point (C18-URL decode-once / own text, C18-FIELDID, C18-VARKINDS, C18-SKEL). One listed known finding (whole-URL decoding, same construct as C18's)." + BASE % "C01" + "DECLARED (cached rule info never written), STATE (pools/globals), ALIAS, LOOP, TEXT (rule text split and parsed faithfully, delimiters by first occurrence).",
- "C02": "Round 5: C02-ALLELEMS (every element of a top-level slice/array/map reaches the walker), C02-MISSING-ALL, C02-LIVE (the clause separator ErrEndFlag is read at the time of use, never frozen at package initialisation), C02-BASE-EXPORT, C02-BASE-FACADE. Round 4: a violated required is reported for every kind (C02-REQUIRED = C03-REQ). Also: field values read at the offset of the entry that names the field (C02-FIELDID), rule source/scope (C02-RULESRC = C16-SCOPE/REPLACE); cached per-type rule info is never written by a walker (C02-DECLARED); group clauses name every member by its object path (C02-GROUP = C17-KEY/EVAL); a key present in the input is not reported again as missing (C02-MISSING-ONCE); map keys in paths are rendered by the fmt default of ToStr (C02-PATHKEY)." + BASE % "C02" + "STATE, ALIAS, TEXT.",
- "C03": "Round 5: the required clause is written only on paths that found the value zero or an empty collection (C03-REQ proof of emptiness), C03-MISSING-ALL (the missing-key reporter enumerates the rule keys on every path), C03-ALLELEMS, C03-BASE-RULESRC/EXPORT/FACADE. Round 4: the exempt type denotes time.Time (C03-EXEMPT). Also: C03-FIELDID, C03-URLENTRY (= C18-URL; one listed known finding: whole-URL decoding); the missing-key bookkeeping of the keyed walkers (C03-SEEN: fresh per-pass key set, filled on every iteration with the lookup key, reporter skips exactly seen keys and non-required rules), rule loops leave only through their headers (C03-LOOP), zero sub-objects are never descended into (C03-DESCENT)." + BASE % "C03" + "DECLARED, STATE, ALIAS, TEXT.",
- "C04": "Round 5: C04-ALLELEMS, C04-BASE-RULESRC (an unscoped rule set is never consulted for a nested object); the pooled validator's rule map is reset on every releaser path (found after the interpreter was made to restore client cells between traces). Round 4: C04-EXEMPT. Also: the export predicate accepts exactly first bytes 'A'..'Z' (C04-EXPORT, interval analysis), pointer stripping returns a non-pointer (C04-STRIP), map keys in labels are rendered through ToStr's fmt default (C04-PATHKEY), the type name is accepted as object path only on the outermost-object edge, cached rule info is never written (C04-DECLARED)." + BASE % "C04" + "STATE, LOOP.",
- "C05": "Round 5: C05-BASE-ZEROSKIP (every walker calls a rule function exactly when the value itself is non-empty: no TrimSpace notion of empty in one carrier), C05-BASE-RULESRC/EXPORT/FACADE. Round 4: C05-INLIST, the option list of in/include is the text from the first '(' to the last ')' for every value skeleton (segmented-string evaluation with a probe at the splitter call). Also: verdict flags carried around element loops are monotone and not degenerate (C05-STICKY), unique inserts every element and compares counts for equality (C05-UNIQUE), default date separators only when the rule has no value, ToStr has no interface/reflect.Value case (C05-TOSTRCASES)." + BASE % "C05" + "DECLARED, STATE, ALIAS, LOOP, TEXT (includes the splitter's transition table used for in/include options).",
- "C06": "Round 5: C06-UNITS (byte offsets and rune counts never mixed, e.g. in the directory-separator helper), C19-DISPATCH imported (each of -f/-p/-d reaches the handler of its own kind, unmodified). Round 4: the merged tag text is installed literally (replace-literal; a genuine defect found and fixed, commit 01fe667), declaration and field loops leave only through their headers (all-fields), the matched element is read before it is removed in place. Also decided since DESIGN.md §10: the key-wise merge (C06-MERGE: dataflow shape of override/newTagItems), statelessness of package file (C06-STATE), one fresh FileSet per file, write-back on every path after the areas were applied, every .go file handled (C06-ALLFILES).",
- "C07": "Round 4: replace-literal (same fixed defect), one annotation source per field (no Field.Doc), read-before-remove, all-fields. Also decided since DESIGN.md §10: the conditions under which the merge is a fixpoint on the second run (C07-MERGE: match on keys, first match, replaced in place, removed from the remainder), no package-level state in the injector (C07-STATE), one run injects every field (C07-ONEPASS). The statement 'a merge that appends is not detected' no longer holds for the repository's merge shape; another shape is reported undecided.",
+ "C01": "Round 6: value-preserving conversions on every platform (an int64 measure is never narrowed to int before the comparison). Round 5: the rule text in force for an object is selected correctly (C01-BASE-RULESRC), exported fields are recognised exactly (C01-BASE-EXPORT), every entry point hands all its parameters on (C01-BASE-FACADE). Round 4: C01-EXACT, a measure from Int()/Uint()/Float() is never converted before the comparison to a type that cannot hold every value of its own (no int64/uint64 -> float64 detour: integers above 2^53 collapse). Also: a conversion of the measure must be value preserving (float->int, uint64->int64 rejected); C01-ENTRY: the value measured is the caller's through every entry point (C18-URL decode-once / own text, C18-FIELDID, C18-VARKINDS, C18-SKEL). One listed known finding (whole-URL decoding, same construct as C18's)." + BASE % "C01" + "DECLARED (cached rule info never written), STATE (pools/globals), ALIAS, LOOP, TEXT (rule text split and parsed faithfully, delimiters by first occurrence).",
+ "C02": "Round 6: C02-REQDESCEND (required writes its clause or reaches the nested descent on every path), C02-LIVE-LITERAL (no literal copy of the default separator). Round 5: C02-ALLELEMS (every element of a top-level slice/array/map reaches the walker), C02-MISSING-ALL, C02-LIVE (the clause separator ErrEndFlag is read at the time of use, never frozen at package initialisation), C02-BASE-EXPORT, C02-BASE-FACADE. Round 4: a violated required is reported for every kind (C02-REQUIRED = C03-REQ). Also: field values read at the offset of the entry that names the field (C02-FIELDID), rule source/scope (C02-RULESRC = C16-SCOPE/REPLACE); cached per-type rule info is never written by a walker (C02-DECLARED); group clauses name every member by its object path (C02-GROUP = C17-KEY/EVAL); a key present in the input is not reported again as missing (C02-MISSING-ONCE); map keys in paths are rendered by the fmt default of ToStr (C02-PATHKEY)." + BASE % "C02" + "STATE, ALIAS, TEXT.",
+ "C03": "Round 6: C18-URL first-question-mark (the query is cut at the first '?'). Round 5: the required clause is written only on paths that found the value zero or an empty collection (C03-REQ proof of emptiness), C03-MISSING-ALL (the missing-key reporter enumerates the rule keys on every path), C03-ALLELEMS, C03-BASE-RULESRC/EXPORT/FACADE. Round 4: the exempt type denotes time.Time (C03-EXEMPT). Also: C03-FIELDID, C03-URLENTRY (= C18-URL; one listed known finding: whole-URL decoding); the missing-key bookkeeping of the keyed walkers (C03-SEEN: fresh per-pass key set, filled on every iteration with the lookup key, reporter skips exactly seen keys and non-required rules), rule loops leave only through their headers (C03-LOOP), zero sub-objects are never descended into (C03-DESCENT)." + BASE % "C03" + "DECLARED, STATE, ALIAS, TEXT.",
+ "C04": "Round 6: C04-REQDESCEND. Round 5: C04-ALLELEMS, C04-BASE-RULESRC (an unscoped rule set is never consulted for a nested object); the pooled validator's rule map is reset on every releaser path (found after the interpreter was made to restore client cells between traces). Round 4: C04-EXEMPT. Also: the export predicate accepts exactly first bytes 'A'..'Z' (C04-EXPORT, interval analysis), pointer stripping returns a non-pointer (C04-STRIP), map keys in labels are rendered through ToStr's fmt default (C04-PATHKEY), the type name is accepted as object path only on the outermost-object edge, cached rule info is never written (C04-DECLARED)." + BASE % "C04" + "STATE, LOOP.",
+ "C05": "Round 6: C05-TOSTR follows the value through phis to the formatting call and rejects a narrowing conversion on the way (Itoa(int(int64))). Round 5: C05-BASE-ZEROSKIP (every walker calls a rule function exactly when the value itself is non-empty: no TrimSpace notion of empty in one carrier), C05-BASE-RULESRC/EXPORT/FACADE. Round 4: C05-INLIST, the option list of in/include is the text from the first '(' to the last ')' for every value skeleton (segmented-string evaluation with a probe at the splitter call). Also: verdict flags carried around element loops are monotone and not degenerate (C05-STICKY), unique inserts every element and compares counts for equality (C05-UNIQUE), default date separators only when the rule has no value, ToStr has no interface/reflect.Value case (C05-TOSTRCASES)." + BASE % "C05" + "DECLARED, STATE, ALIAS, LOOP, TEXT (includes the splitter's transition table used for in/include options).",
+ "C06": "Round 6: C06-ONLY whole file (ReadAll is given the opened file, not a limiting reader). Round 5: C06-UNITS (byte offsets and rune counts never mixed, e.g. in the directory-separator helper), C19-DISPATCH imported (each of -f/-p/-d reaches the handler of its own kind, unmodified). Round 4: the merged tag text is installed literally (replace-literal; a genuine defect found and fixed, commit 01fe667), declaration and field loops leave only through their headers (all-fields), the matched element is read before it is removed in place. Also decided since DESIGN.md §10: the key-wise merge (C06-MERGE: dataflow shape of override/newTagItems), statelessness of package file (C06-STATE), one fresh FileSet per file, write-back on every path after the areas were applied, every .go file handled (C06-ALLFILES).",
+ "C07": "Round 6: C07-ONLY whole file. Round 4: replace-literal (same fixed defect), one annotation source per field (no Field.Doc), read-before-remove, all-fields. Also decided since DESIGN.md §10: the conditions under which the merge is a fixpoint on the second run (C07-MERGE: match on keys, first match, replaced in place, removed from the remainder), no package-level state in the injector (C07-STATE), one run injects every field (C07-ONEPASS). The statement 'a merge that appends is not detected' no longer holds for the repository's merge shape; another shape is reported undecided.",
  "C08": "Round 5: C08-BASE-FACADE (the tag name a caller passes is forwarded by every entry point on every path). Also: an entry is complete when published (C08-PUBLISH), no path answers from state that is not part of the key (second memo), " + "the default LRU is a correct map for every capacity (C08-BASE-LRU = C09 rules), pooled validators carry nothing over (C08-BASE-STATE).",
  "C09": "Round 5: C09-CONFIG default only without argument (NewLRU(0) is a capacity-0 cache, not the default). Also: map mutations act on the live map and Load returns the found element's value (C09-LIVE); the rebuild copies every entry unconditionally (C09-REBUILD); constructor stores the requested capacity unchanged, the setter stores the caller's callback, the removed element's key is found by element identity (C09-CONFIG).",
  "C10": "Round 5: the sequential LRU rules are imported (C10-BASE-LRU): capacity bound and internal consistency at quiescence. Also: an operation composed of several lock-taking methods is reported as non-atomic; the address of a guarded field handed to a call counts as a write; the mutex is never copied (pointer receivers only, no struct copy); pooled builders used by Dump are released last and reset before reuse (C10-BASE-STATE).",
  "C11": "Round 5: release-once (a pooled builder is released at most once per function: no explicit release next to the deferred one); a package-level slice is never re-sliced into a per-call object. Round 4: nothing touches an object after Put inside the releaser (put-last), no package-level map is stored into a per-call object (global-map-alias), the LRU rules (C11-BASE-LRU). Also: entries of the type cache are complete when published and never written (C11-CACHE); objects reached from a global and mutated through their methods count as shared state; an object handed to a pool's releaser by a non-deferred call is not used afterwards.",
  "C12": "Round 5: C12-BASE-FACADE, release-once, global slice alias. Round 4: put-last, global-map-alias, and values taken out of reflect.Value.Interface() are never sorted, copied into or stored into (interface-alias). Also: C12-MEMO (package-level concurrent maps written on a validation path store f(key) under key), C12-PARAMWRITE (no store into slice parameters); zero-copy strings are only made from bytes freshly allocated by the same call (never a pooled/shared buffer); the library never writes a caller's rule map, setup paths included (RM.Set / map updates on caller-provided RMs); cache entries complete when published.",
- "C13": "Round 5: C13-NILTYPE (the value to validate never reaches reflect.TypeOf followed by an unguarded method call), C13-ERRPAIR (results paired with an error are dereferenced only behind the error test), C13-INITGLOBAL (dereferenced package-level pointers are initialised at package init or under a dedicated Once). Round 4: reflect Field is called with the recorded index of the field analysed (C13-FIELDIDX = C18-FIELDID). Also: no == between interface values of arbitrary dynamic type (C13-IFACECMP); export predicate exact (C13-EXPORT: reflect refuses Interface() on unexported fields), ToStr never calls String() itself (nil receivers), pointer stripping returns a non-pointer (C13-STRIP)." + BASE % "C13" + "STATE, ALIAS.",
- "C14": "Round 5: C14-VARSET (Var's rule strings accumulate in the validator's own map), C14-CONV (the zero-copy conversions return their whole argument). Since DESIGN.md §10 the splitter's quote-aware slow path IS decided: its complete transition table over (inside-quotes, byte class) is extracted from the code and compared with the specification (C14-SPLIT), with the stack's contract (C14-STACK); RM.Set accumulates per field only (C14-SET); the parser's shape rules (GUARD, ORDER, FIRST, VERBATIM) are applied only when the table is undecided or mismatched; every rule list goes through ValidNamesSplit (C14-USE)." + BASE % "C14" + "STATE, ALIAS, LABEL.",
- "C15": "Round 5: C15-MSGARG (the custom-message parameter receives the parsed message part, never the raw rule item), C15-LIVE. Also: the message of a quoted-argument rule (re) is parsed from the rule text with the quoted span removed (C15-QUOTED); the extractor writes the separator iff output is non-empty and cuts right after the label found (C15-JOIN)." + BASE % "C15" + "DECLARED, STATE, ALIAS, TEXT, MAT.",
- "C16": "Round 5: C16-SETFN (the per-object function setter stores on every path). Round 4: the per-call rule table is filled by SetRule only (filled-by-SetRule-only). Also: walker getValidFn wrappers only delegate (C16-DELEGATE); the rule name is looked up before any emptiness test of the value (C16-UNKNOWN), exported wrappers pass an unscoped rule set without an object (C16-API), cached rule info is never written (C16-DECLARED)." + BASE % "C16" + "STATE (per-call function tables do not survive in pooled validators), LOOP, TEXT.",
- "C17": "Round 5: C17-ALLELEMS, C17-LIVE, C17-BASE-RULESRC/EXPORT/FACADE. Round 4: object paths of nested objects tell map entries apart (C17-OBJPATH = C04-LABEL); URL members carry their whole own value (C17-URLVALUE). Also: the clause of a violated group names every member; the type name is accepted as object path only on the outermost-object edge; members keep their own value until evaluation (C17-OWNVALUE); map keys rendered by ToStr's fmt default (C17-PATHKEY)." + BASE % "C17" + "DECLARED, STATE, ALIAS, LOOP, TEXT, MAT.",
- "C18": "Round 5: C18-FORWARD (all 13 entry points hand every parameter on), C18-REQUIRED (= C03-REQ), C18-BASE-ZEROSKIP/RULESRC/EXPORT. Round 4: the variable entry point asks ReflectKindIsNum with the float flag (admits-floats); SplitN with a count other than 2 is lossy. Also: struct fields read at the offset of the entry that names them (C18-FIELDID); URL values are query-decoded exactly once from the caller's untransformed text, key and value come from the parameter's own text (no loop-carried variable), ReflectKindIsNum's table is enumerated for every kind and flag (C18-VARKINDS), rule loops leave only through their headers (C18-LOOP)." + BASE % "C18" + "DECLARED, STATE, ALIAS, TEXT.",
- "C19": "Round 5: C19-DISPATCH (parser and writer are called by the per-file handler only; flag variables written by package flag only and handed to the handler of their kind), C19-KEEP (the splice returns prefix, field text and suffix on every path). Also: one fresh FileSet per parsed file (premise of the area-offset axiom).",
- "C20": "Round 5: C20-GET and C20-FACADE (what the emitters wrote is what the caller gets: no post-processing, no shortcut result), the numeric scratch buffer is per dumper (global slice alias). Round 4: every emitted member was found exported on its own path; C20-EXEMPT. Also: every reflect Field(i) is proved within NumField() (C20-FIELDIDX, bounds prover), numbers rendered from the accessor of their own kind class (C20-SCALAR), export predicate exact (C20-EXPORT), no separator state in fields of the shared dumper (C20-REENTRANT)." + BASE % "C20" + "STATE (pooled builders).",
+ "C13": "Round 6: C13-EXPORTED (= C04-GUARD), C13-BASE-LRU (a cache that panics at capacity 0 makes every validation panic). Round 5: C13-NILTYPE (the value to validate never reaches reflect.TypeOf followed by an unguarded method call), C13-ERRPAIR (results paired with an error are dereferenced only behind the error test), C13-INITGLOBAL (dereferenced package-level pointers are initialised at package init or under a dedicated Once). Round 4: reflect Field is called with the recorded index of the field analysed (C13-FIELDIDX = C18-FIELDID). Also: no == between interface values of arbitrary dynamic type (C13-IFACECMP); export predicate exact (C13-EXPORT: reflect refuses Interface() on unexported fields), ToStr never calls String() itself (nil receivers), pointer stripping returns a non-pointer (C13-STRIP)." + BASE % "C13" + "STATE, ALIAS.",
+ "C14": "Round 6: C14-FAST rejects a piece limit on the fast path (SplitN with n >= 0). Round 5: C14-VARSET (Var's rule strings accumulate in the validator's own map), C14-CONV (the zero-copy conversions return their whole argument). Since DESIGN.md §10 the splitter's quote-aware slow path IS decided: its complete transition table over (inside-quotes, byte class) is extracted from the code and compared with the specification (C14-SPLIT), with the stack's contract (C14-STACK); RM.Set accumulates per field only (C14-SET); the parser's shape rules (GUARD, ORDER, FIRST, VERBATIM) are applied only when the table is undecided or mismatched; every rule list goes through ValidNamesSplit (C14-USE)." + BASE % "C14" + "STATE, ALIAS, LABEL.",
+ "C15": "Round 6: C15-LIVE-LITERAL. Round 5: C15-MSGARG (the custom-message parameter receives the parsed message part, never the raw rule item), C15-LIVE. Also: the message of a quoted-argument rule (re) is parsed from the rule text with the quoted span removed (C15-QUOTED); the extractor writes the separator iff output is non-empty and cuts right after the label found (C15-JOIN)." + BASE % "C15" + "DECLARED, STATE, ALIAS, TEXT, MAT.",
+ "C16": "Round 6: C16-DECLARED carries C08-KEY (cache key includes the requested tag name). Round 5: C16-SETFN (the per-object function setter stores on every path). Round 4: the per-call rule table is filled by SetRule only (filled-by-SetRule-only). Also: walker getValidFn wrappers only delegate (C16-DELEGATE); the rule name is looked up before any emptiness test of the value (C16-UNKNOWN), exported wrappers pass an unscoped rule set without an object (C16-API), cached rule info is never written (C16-DECLARED)." + BASE % "C16" + "STATE (per-call function tables do not survive in pooled validators), LOOP, TEXT.",
+ "C17": "Round 6: C17-LIVE-LITERAL. Round 5: C17-ALLELEMS, C17-LIVE, C17-BASE-RULESRC/EXPORT/FACADE. Round 4: object paths of nested objects tell map entries apart (C17-OBJPATH = C04-LABEL); URL members carry their whole own value (C17-URLVALUE). Also: the clause of a violated group names every member; the type name is accepted as object path only on the outermost-object edge; members keep their own value until evaluation (C17-OWNVALUE); map keys rendered by ToStr's fmt default (C17-PATHKEY)." + BASE % "C17" + "DECLARED, STATE, ALIAS, LOOP, TEXT, MAT.",
+ "C18": "Round 6: C18-URL first-question-mark, C18-LIVE, C18-BASE-MAT. Round 5: C18-FORWARD (all 13 entry points hand every parameter on), C18-REQUIRED (= C03-REQ), C18-BASE-ZEROSKIP/RULESRC/EXPORT. Round 4: the variable entry point asks ReflectKindIsNum with the float flag (admits-floats); SplitN with a count other than 2 is lossy. Also: struct fields read at the offset of the entry that names them (C18-FIELDID); URL values are query-decoded exactly once from the caller's untransformed text, key and value come from the parameter's own text (no loop-carried variable), ReflectKindIsNum's table is enumerated for every kind and flag (C18-VARKINDS), rule loops leave only through their headers (C18-LOOP)." + BASE % "C18" + "DECLARED, STATE, ALIAS, TEXT.",
+ "C19": "Round 6: C19-KEEP carries C06-ONLY (whole file read); C19-DISPATCH decided by interpreting main with package flag modelled. Round 5: C19-DISPATCH (parser and writer are called by the per-file handler only; flag variables written by package flag only and handed to the handler of their kind), C19-KEEP (the splice returns prefix, field text and suffix on every path). Also: one fresh FileSet per parsed file (premise of the area-offset axiom).",
+ "C20": "Round 6: C20-SCALAR narrowing (no Itoa(int(tv.Int()))), package-level scratch array never handed to Append*. Round 5: C20-GET and C20-FACADE (what the emitters wrote is what the caller gets: no post-processing, no shortcut result), the numeric scratch buffer is per dumper (global slice alias). Round 4: every emitted member was found exported on its own path; C20-EXEMPT. Also: every reflect Field(i) is proved within NumField() (C20-FIELDIDX, bounds prover), numbers rendered from the accessor of their own kind class (C20-SCALAR), export predicate exact (C20-EXPORT), no separator state in fields of the shared dumper (C20-REENTRANT)." + BASE % "C20" + "STATE (pooled builders).",
 }
 
 NOT_YET = "check under construction in this session (see DESIGN.md §4); not claimed until its rules are armed and tested both ways"
